@@ -13,6 +13,7 @@ import (
 	"fmt"
 	"io"
 	"reflect"
+	"sort"
 	"strings"
 
 	tls "github.com/refraction-networking/utls"
@@ -34,10 +35,63 @@ type produced struct {
 	body []byte
 }
 
+type pending struct {
+	kind, coq, key string
+	nontrivial     bool
+	sample         any
+}
+
 type runner struct {
 	c     *vh.Ctx
 	types map[string]bool
 	pool  []produced // (id, body) pairs Read produced, for the truncation / extension cases
+	cases []pending  // buffered; flush() hands them to vh in an order that balances the shards
+}
+
+func (r *runner) emit(kind, coq, key string, nontrivial bool, sample any) {
+	r.cases = append(r.cases, pending{kind, coq, key, nontrivial, sample})
+}
+
+// vh cuts the case list into shards of shardSize consecutive cases which Coq evaluates in
+// parallel; the time of a shard is dominated by the size of its terms. flush deals the cases,
+// heaviest first, round-robin over the shards so that no shard collects all the 256-entry values.
+// Deterministic: depends only on the cases themselves.
+const shardSize = 400
+
+func (r *runner) flush() {
+	n := len(r.cases)
+	if n == 0 {
+		return
+	}
+	ns := (n + shardSize - 1) / shardSize
+	order := make([]int, n)
+	for i := range order {
+		order[i] = i
+	}
+	sort.SliceStable(order, func(a, b int) bool { return len(r.cases[order[a]].coq) > len(r.cases[order[b]].coq) })
+	shards := make([][]int, ns)
+	capOf := func(j int) int {
+		if j == ns-1 {
+			return n - shardSize*(ns-1)
+		}
+		return shardSize
+	}
+	j := 0
+	for _, i := range order {
+		for len(shards[j]) >= capOf(j) {
+			j = (j + 1) % ns
+		}
+		shards[j] = append(shards[j], i)
+		j = (j + 1) % ns
+	}
+	for _, sh := range shards {
+		sort.Ints(sh) // keep generation order inside a shard
+		for _, i := range sh {
+			p := r.cases[i]
+			r.c.Case(p.kind, p.coq, p.key, p.nontrivial, p.sample)
+		}
+	}
+	r.cases = nil
 }
 
 func typeOf(genName string) string {
@@ -114,6 +168,7 @@ func run(c *vh.Ctx) {
 	// ---- B: malformed bodies ----
 	r.malformed()
 
+	r.flush()
 	c.Extra["types"] = len(r.types)
 	c.Extra["pool"] = len(r.pool)
 }
@@ -150,7 +205,7 @@ func (r *runner) readValue(g extcoq.Gen, size, idx int, big, oracle bool) {
 	if !big {
 		bufs = append(bufs, buf{0, "0"})
 	}
-	if L > 0 {
+	if L > 0 && size != 255 { // the 255-sized value is read into the exact buffer only (volume)
 		bufs = append(bufs, buf{L - 1, "L-1"})
 	}
 	bufs = append(bufs, buf{L, "L"})
@@ -166,7 +221,7 @@ func (r *runner) readValue(g extcoq.Gen, size, idx int, big, oracle bool) {
 		pR, rv := vh.Recover(func() { k, err = e.Read(b) })
 		obs := robs(pR, k, err, b)
 		key := fmt.Sprintf("%s/s%d/i%d/n%s", g.Name, size, idx, bf.class)
-		c.Case(g.Name, fmt.Sprintf("CRead %s %d %s %s", term, n, golen, obs), key, L > 4 && n >= L,
+		r.emit(g.Name, fmt.Sprintf("CRead %s %d %s %s", term, n, golen, obs), key, L > 4 && n >= L,
 			map[string]any{"type": g.Name, "size": size, "buf": n, "Len": L, "k": k, "err": errText(err), "term": clip(term, 200)})
 
 		in := map[string]any{"value": clip(term, 400), "buf": n}
@@ -186,9 +241,14 @@ func (r *runner) readValue(g extcoq.Gen, size, idx int, big, oracle bool) {
 							map[string]any{"Len": L, "read": k, "bytes": clip(vh.Hex(b[:min(max(k, 0), n)]), 200)}, L)
 					}
 				} else if !expectedErr(e, L, err) {
+					// diagnostic only: what the same value does with a buffer that is certainly large enough
+					var k3 int
+					var err3 error
+					vh.Recover(func() { k3, err3 = e.Read(make([]byte, L+70000)) })
 					c.Count("fail:len-vs-read")
 					c.Fail(typ+"/len-vs-read", "Read() into a buffer of at least Len() bytes failed for a value within wire limits", in,
-						map[string]any{"Len": L, "read": k, "err": errText(err)}, "Len() bytes and io.EOF")
+						map[string]any{"Len": L, "read": k, "err": errText(err), "read_into_huge_buffer": k3, "err_huge_buffer": errText(err3)},
+						"Len() bytes and io.EOF")
 				}
 			} else {
 				c.Count("check:short-buffer")
@@ -313,7 +373,7 @@ func (r *runner) writeCase(kind, key string, real bool, id uint16, body []byte) 
 		}
 		obs = fmt.Sprintf("(WOk %d %s)", res.L2, robs(res.rpanic, res.k2, res.err2, shown))
 	}
-	c.Case(kind, fmt.Sprintf("CWrite %s %d %s %s", vh.Bool(real), id, vh.Bytes(body), obs), key,
+	r.emit(kind, fmt.Sprintf("CWrite %s %d %s %s", vh.Bool(real), id, vh.Bytes(body), obs), key,
 		strings.HasPrefix(obs, "(WOk") && len(body) > 0,
 		map[string]any{"id": id, "real": real, "body": clip(vh.Hex(body), 100), "obs": clip(obs, 200)})
 	return res
